@@ -504,6 +504,18 @@ func (ex *Exec) mPow(x, a F) F {
 		return F{T: tb.Float(v), D: ex.andD(x.D, a.D)}
 	}
 	d := ex.andD(x.D, a.D)
+	if ex.fpMode && a.T.op == "fconst" {
+		// bit-precise mode: math.Pow(x, 2) is the correctly rounded x*x (Go squares the mantissa once and
+		// rescales by a power of two; exact outside the subnormal / overflow range), Pow(x,1)=x, Pow(x,0)=1
+		switch a.T.f64() {
+		case 2:
+			return F{T: tb.RMul(x.T, x.T), D: d}
+		case 1:
+			return F{T: x.T, D: d}
+		case 0:
+			return F{T: tb.FConst(1), D: d}
+		}
+	}
 	if a.T.op == "rconst" {
 		if a.T.rat.IsInt() && a.T.rat.Num().IsInt64() {
 			n := a.T.rat.Num().Int64()
@@ -690,11 +702,56 @@ func (ex *Exec) obligation(kind, label string, ob *Term, margin *Term, site ssa.
 			panic(abortPath{"assertion fails everywhere on path"})
 		}
 	default:
+		// The solver gave up on the full query.  Under-approximate it: fix all but two of the real
+		// inputs to small distinct rationals and ask again - a model of the restricted query is a model
+		// of the original one (a sound counterexample, replayed natively like any other); no model
+		// leaves the obligation undecided as before.
+		if rm := ex.restrictedModel(neg); rm != nil {
+			q := ex.sol.script([]*Term{neg}, nil)
+			ex.violate(Violation{Kind: kind, Label: label, Pos: pos, Detail: "negated obligation (model found with all but two inputs fixed): " + neg.Short(), Solver: "z3", Query: q}, rm)
+			if ex.feasible(ob) {
+				ex.addPC(ob)
+			} else {
+				panic(abortPath{"assertion fails everywhere on path"})
+			}
+			return
+		}
 		ex.res.Undischarged = append(ex.res.Undischarged, label+" @ "+pos+": solver "+r)
 		if len(ex.res.Undischarged) >= 4 {
 			panic(abortPath{"too many undecided obligations on this path"})
 		}
 	}
+}
+
+// restrictedModel: see the unknown branch of obligation.
+func (ex *Exec) restrictedModel(neg *Term) map[string]ModelVal {
+	tb := ex.b
+	vars := ex.wantVars()
+	var reals []*Term
+	for _, v := range vars {
+		if v.sort == SReal && !strings.HasPrefix(v.name, "draw_") {
+			reals = append(reals, v)
+		}
+	}
+	if len(reals) < 4 || ex.fpMode {
+		return nil
+	}
+	sort.Slice(reals, func(i, j int) bool { return reals[i].name < reals[j].name })
+	for attempt := 0; attempt < 2; attempt++ {
+		cons := []*Term{neg}
+		free := 0
+		for j, v := range reals {
+			if free < 2 && (j+attempt)%((len(reals)+1)/2) == 0 {
+				free++
+				continue
+			}
+			cons = append(cons, tb.Eq(v, tb.RatI(int64((j*7+attempt*3)%11-5), 2)))
+		}
+		if r, m := ex.check(cons, vars); r == "sat" {
+			return m
+		}
+	}
+	return nil
 }
 
 func tensorStruct(ex *Exec, v Value) (*StructObj, *types.Struct) {
@@ -752,6 +809,19 @@ func gctxOf(ex *Exec, t Value) (*StructObj, *types.Struct) {
 	}
 	gt := st.Field(fieldIdx(st, "gctx")).Type().(*types.Pointer).Elem().Underlying().(*types.Struct)
 	return gp.v.(*StructObj), gt
+}
+
+func inAssertEqF(ex *Exec, _ *ssa.Function, a []Value, site ssa.Instruction) Value {
+	tb := ex.b
+	got, want := a[1].(F), a[2].(F)
+	// wherever the reference is defined the implementation must be defined and equal
+	ob := tb.Implies(ex.defTerm(want), tb.And(ex.defTerm(got), tb.Eq(got.T, want.T)))
+	// margin: clearly different values or an undefined result
+	diff := tb.RSub(got.T, want.T)
+	h := tb.RatI(1, 100)
+	margin := tb.Or(tb.Not(ex.defTerm(got)), tb.RLe(h, diff), tb.RLe(diff, tb.RNeg(h)))
+	ex.obligation("eq", a[0].(string), ob, margin, site)
+	return nil
 }
 
 var vrtIntrinsics = map[string]intrinsicFn{
@@ -902,18 +972,8 @@ var vrtIntrinsics = map[string]intrinsicFn{
 		}
 		return nil
 	},
-	"AssertEqF": func(ex *Exec, _ *ssa.Function, a []Value, site ssa.Instruction) Value {
-		tb := ex.b
-		got, want := a[1].(F), a[2].(F)
-		// wherever the reference is defined the implementation must be defined and equal
-		ob := tb.Implies(ex.defTerm(want), tb.And(ex.defTerm(got), tb.Eq(got.T, want.T)))
-		// margin: clearly different values or an undefined result
-		diff := tb.RSub(got.T, want.T)
-		h := tb.RatI(1, 100)
-		margin := tb.Or(tb.Not(ex.defTerm(got)), tb.RLe(h, diff), tb.RLe(diff, tb.RNeg(h)))
-		ex.obligation("eq", a[0].(string), ob, margin, site)
-		return nil
-	},
+	"AssertEqFS": inAssertEqF, // the scale argument only matters to the native tolerance
+	"AssertEqF":  inAssertEqF,
 	"AssertFinite": func(ex *Exec, _ *ssa.Function, a []Value, site ssa.Instruction) Value {
 		x := a[1].(F)
 		ex.obligation("finite", a[0].(string), ex.defTerm(x), nil, site)
